@@ -1160,9 +1160,12 @@ void rfbNewFramebuffer(rfbScreenInfoPtr screen, char *framebuffer,
 
 /* hang up on all clients and free all reserved memory */
 
+extern rfbClientIteratorPtr rfbGetClientIteratorWithClosed(rfbScreenInfoPtr rfbScreen);
+
 void rfbScreenCleanup(rfbScreenInfoPtr screen)
 {
-  rfbClientIteratorPtr i=rfbGetClientIterator(screen);
+  /* also the clients that are closed but not reaped by rfbProcessEvents() yet */
+  rfbClientIteratorPtr i=rfbGetClientIteratorWithClosed(screen);
   rfbClientPtr nextCl,currentCl=rfbClientIteratorNext(i);
   while(currentCl) {
     nextCl=rfbClientIteratorNext(i);
@@ -1207,7 +1210,8 @@ void rfbInitServer(rfbScreenInfoPtr screen)
 
 void rfbShutdownServer(rfbScreenInfoPtr screen,rfbBool disconnectClients) {
   if(disconnectClients) {
-    rfbClientIteratorPtr iter = rfbGetClientIterator(screen);
+    /* also the clients that are closed but not reaped by rfbProcessEvents() yet */
+    rfbClientIteratorPtr iter = rfbGetClientIteratorWithClosed(screen);
     rfbClientPtr nextCl, currentCl = rfbClientIteratorNext(iter);
 
     while(currentCl) {
